@@ -781,9 +781,20 @@ def do_v3_case(req):
     elif len(glog) != len(logs):
         what = 'yielded %d log records, the log blocks hold %d' % (len(glog), len(logs))
     else:
+        import copy
         for g, raw in zip(glog, logs):
             if g.thread_identifier != raw['tid'] or g.composed_message != strings.get(raw['cm']):
                 what = 'log record decoded wrongly (tid/message)'
+            else:
+                # the container yields the record as the record decoder (C16) decodes it: nothing added, nothing changed
+                try:
+                    want = OsLogEvent.from_raw_log_event(copy.deepcopy(raw), strings)
+                except BaseException:  # noqa
+                    want = None
+                if want is not None and g != want:
+                    diff = [f for f in vars(want) if getattr(g, f, None) != getattr(want, f)]
+                    what = 'log record of thread %r comes out of the version-3 parse with %s = %r, its own decoding gives %r' % (
+                        raw['tid'], diff[0] if diff else '?', getattr(g, diff[0], None) if diff else None, getattr(want, diff[0]) if diff else None)
         for raw in logs:
             if raw.get('p') is not None and strings.get(raw['p']) and raw.get('tid'):
                 tp[raw['tid']] = raw.get('pid', 0)
@@ -1182,8 +1193,25 @@ def do_supplied_table_case(req):
     second = run(swapped)
     exp_second = [first[1], first[0]] if len(first) == 2 else None
     viol = second != exp_second
-    return {'first': first, 'second': second, 'expected_second': exp_second, 'violates': viol,
-            'what': 'a second parser given a table with two names swapped decodes %r, expected %r' % (second, exp_second) if viol else ''}
+    what = 'a second parser given a table with two names swapped decodes %r, expected %r' % (second, exp_second) if viol else ''
+    if not viol:
+        # a table may give one name to several ids, move a name to an unused id, or be empty: the table alone decides
+        alias = dict(codes)
+        alias[b] = codes[a]
+        third = run(alias)
+        exp_third = [first[0], first[0]] if len(first) == 2 else None
+        moved = {k: v for k, v in codes.items() if k != a}
+        moved[0x7ff0000] = codes[a]
+        p = TracesParser(moved, {}, {})
+        mv = [str(r) for r in (p.feed(_mk_kevent(0x7ff0000, 7, q, (0, 42, 0, 0), ts=q)) for q in (1, 2)) if r is not None]
+        none = run({})
+        if third != exp_third:
+            viol, what = True, 'under a table that gives the name %s to two ids the two calls decode to %r, expected %r' % (codes[a], third, exp_third)
+        elif mv != first[:1]:
+            viol, what = True, 'under a table that moves %s to the id 0x7ff0000 the call on that id decodes to %r, expected %r' % (codes[a], mv, first[:1])
+        elif none:
+            viol, what = True, 'under an empty table the records still decode to %r' % (none,)
+    return {'first': first, 'second': second, 'expected_second': exp_second, 'violates': viol, 'what': what}
 
 
 HANDLERS.update({'supplied_table_case': do_supplied_table_case})
